@@ -9,6 +9,7 @@ import (
 
 	"github.com/celestiaorg/rsmt2d"
 
+	"github.com/celestiaorg/celestia-node/libs/verifhook"
 	"github.com/celestiaorg/celestia-node/share/shwap"
 )
 
@@ -31,11 +32,14 @@ func createQ4(
 		return fmt.Errorf("creating Q4 file: %w", err)
 	}
 
+	verifhook.PointKV("q4.created", path)
 	err = writeQ4File(f, eds)
+	verifhook.PointKV("q4.written", path)
 	if errClose := f.Close(); errClose != nil {
 		err = errors.Join(err, fmt.Errorf("closing created Q4 file: %w", errClose))
 	}
 
+	verifhook.PointKV("q4.closed", path)
 	return err
 }
 
@@ -48,6 +52,7 @@ func writeQ4File(f *os.File, eds *rsmt2d.ExtendedDataSquare) error {
 		return fmt.Errorf("writing Q4: %w", err)
 	}
 
+	verifhook.Point("q4.before-flush")
 	if err := buf.Flush(); err != nil {
 		return fmt.Errorf("flushing Q4: %w", err)
 	}
@@ -66,6 +71,7 @@ func writeQ4(w io.Writer, eds *rsmt2d.ExtendedDataSquare) error {
 			if err != nil {
 				return fmt.Errorf("writing share: %w", err)
 			}
+			verifhook.Point("q4.share-buffered")
 		}
 	}
 	return nil
